@@ -250,6 +250,12 @@ class Algebra:
                 # type lands on its grid; the R algebra keeps the value and lets the lemma state the grid.
                 if dst in ("float8_e4m3fn", "float8_e5m2") and src not in ("float8_e4m3fn", "float8_e5m2"):
                     return self.round_to_f8_R(x, dst)
+                if getattr(self, "track_narrowing", False) and FLOAT_DTYPES[dst][1] < FLOAT_DTYPES[src][1] and dst in ("float16", "bfloat16"):
+                    # a marker (identity function) around values narrowed to a 16-bit float: lets a check state WHICH value is rounded
+                    # to the narrow type (the fully scaled result, or an unscaled intermediate that may overflow)
+                    f = z3.Function(f"narrow_{dst}", z3.RealSort(), z3.RealSort())
+                    self.side.append(("fact", f(x) == x))
+                    return f(x)
                 return x
             if dst == "float8_e4m3fn":
                 return self.cast_to_f8e4m3(x, src)
